@@ -131,7 +131,7 @@ def write_evidence(prop: str, tier: str, level: str, ctx: Ctx | None, wall: floa
     }
     os.makedirs(os.path.join(VERIF, "evidence"), exist_ok=True)
     path = os.path.join(VERIF, "evidence", f"{prop}.json")
-    tmp = path + ".tmp"
+    tmp = f"{path}.{os.getpid()}.tmp"
     with open(tmp, "w") as f:
         json.dump(ev, f, indent=1, sort_keys=False, default=str)
         f.write("\n")
